@@ -7,7 +7,7 @@ import warnings
 from .. import build, gen as G, model as M, mon, pathcases as PC
 from ..core import call
 from ..lit import canon
-from . import c10
+from . import c10, c11
 
 ID = "C12"
 LEVEL = "exploration"
@@ -64,6 +64,8 @@ def strata(tier):
         {"p": "map", "key": PC.L("key", "equal_to", 3, pre="length")}, {"p": "map", "key": PC.L("key", "equal_to", {"$type": "int"}, pre="dtype")},
         {"p": "map", "label": "L"}, {"p": "list", "label": "L"}, {"p": "mol", "label": "L"}, {"p": "map", "key": {"prim": "a"}, "label": "L"},
         {"p": "mol", "key": {"prim": 0}, "index": {"prim": 0}, "label": "zero"},
+        {"p": "prim", "v": 2.0}, {"p": "prim", "v": 1.0}, {"p": "prim", "v": 0.0}, {"p": "prim", "v": True}, {"p": "prim", "v": "2"},
+        {"p": "map", "key": {"prim": 2.0}}, {"p": "map", "key": {"prim": True}},
     ]
     parts = [p for p in PC.FIXED_PARTS] + extra
     n = 0
@@ -190,8 +192,13 @@ def run(case, ctx):
             break
         if exp is not M.SKIP and len(exp) >= 2:
             multi = True
+    c_out = canon(out)
+    c11._scribble(out)  # the caller may do what it likes with the returned specs
+    if ok2:
+        c11._scribble(out2)
     ok, out3 = call(obj.to_part_specs)
-    if not ok or canon(out3) != canon(out):
+    out = loaded
+    if not ok or canon(out3) != c_out:
         ctx.violate(f"C12/not-stable-after-use/{ktail}", f"to_part_specs() after the path was used gives {out3!r}, first {out!r}")
     if via == "spec":
         okq, eq = call(lambda: (rebuilt == obj, obj == rebuilt))
